@@ -14,8 +14,8 @@
 EXTENDS Overlay, Json, IOUtils
 Rec == ndJsonDeserialize(IOEnv.TRACE)
 
-VARIABLES l, hasUpper, B, fresh, view, lowers, upraw, preup, digests, exp, lastop, div, nfail, overwh, pview, slots
-vars == <<l, hasUpper, B, fresh, view, lowers, upraw, preup, digests, exp, lastop, div, nfail, overwh, pview, slots>>
+VARIABLES l, hasUpper, B, fresh, view, lowers, upraw, preup, digests, exp, lastop, div, nfail, overwh, pview, slots, cfgtag
+vars == <<l, hasUpper, B, fresh, view, lowers, upraw, preup, digests, exp, lastop, div, nfail, overwh, pview, slots, cfgtag>>
 
 Viol(sig, detail) == PrintT(<<"VIOL", sig, l, detail>>)
 Markers == {"trusted.overlay.opaque", "user.overlay.opaque", "user.fuseoverlayfs.opaque"}
@@ -57,7 +57,8 @@ DiffKind(a, b) ==
 OpName == lastop.op
 \* "dirw": a non-opaque upper directory that an earlier mkdir of this run made over hidden lower entries
 UpClass == LET c == EntryClass(preup, lastop.p) IN IF c = "dir" /\ lastop.ow THEN "dirw" ELSE c
-OpClass == IF lastop.op = "init" THEN "initial" ELSE "upper-" \o UpClass \o "-lower-" \o TopLower(lowers, lastop.p)
+\* "+noopen": the instance (overlay and layers) runs with ZERO_MESSAGE_OPEN negotiated
+OpClass == IF lastop.op = "init" THEN "initial" \o cfgtag ELSE "upper-" \o UpClass \o "-lower-" \o TopLower(lowers, lastop.p) \o cfgtag
 Sig(prop, what) == prop \o "|" \o OpName \o "|" \o what \o "|" \o OpClass
 
 \* ids of the re-synchronised view: keep the identity the A view has for the same kind of node
@@ -68,7 +69,7 @@ Resync(logged, base) ==
 
 Init == /\ l = 1 /\ hasUpper = TRUE /\ B = 1 /\ fresh = TRUE /\ view = EmptyTree /\ lowers = <<>>
         /\ upraw = EmptyTree /\ preup = EmptyTree /\ digests = [k \in 1..4 |-> ""]
-        /\ exp = Free(EmptyTree) /\ lastop = [op |-> "init", p |-> <<>>, st |-> 0, src |-> <<>>, ow |-> FALSE] /\ div = {} /\ nfail = 0 /\ overwh = {} /\ pview = EmptyTree /\ slots = [k \in 0..2 |-> NoSlot]
+        /\ exp = Free(EmptyTree) /\ lastop = [op |-> "init", p |-> <<>>, st |-> 0, src |-> <<>>, ow |-> FALSE] /\ div = {} /\ nfail = 0 /\ overwh = {} /\ pview = EmptyTree /\ slots = [k \in 0..2 |-> NoSlot] /\ cfgtag = ""
 
 Layers == IF hasUpper THEN <<upraw>> \o lowers ELSE lowers
 
@@ -134,7 +135,7 @@ Step ==
      CASE r.e = "Reset" ->
             /\ hasUpper' = r.upper /\ B' = r.B /\ fresh' = TRUE /\ view' = EmptyTree /\ lowers' = <<>>
             /\ upraw' = EmptyTree /\ preup' = EmptyTree /\ digests' = [k \in 1..4 |-> ""]
-            /\ exp' = Free(EmptyTree) /\ lastop' = [op |-> "init", p |-> <<>>, st |-> 0, src |-> <<>>, ow |-> FALSE] /\ div' = {} /\ nfail' = 0 /\ overwh' = {} /\ pview' = EmptyTree /\ slots' = [k \in 0..2 |-> NoSlot]
+            /\ exp' = Free(EmptyTree) /\ lastop' = [op |-> "init", p |-> <<>>, st |-> 0, src |-> <<>>, ow |-> FALSE] /\ div' = {} /\ nfail' = 0 /\ overwh' = {} /\ pview' = EmptyTree /\ slots' = [k \in 0..2 |-> NoSlot] /\ cfgtag' = IF Has(r, "no_open") /\ r.no_open THEN "+noopen" ELSE ""
        [] r.e = "Layers" ->
             \* an opaque ROOT cuts off the layers below it like any opaque directory: r.ro lists the marker of each
             \* layer's root (upper first when there is one); the lower layers that still contribute are kept
@@ -144,28 +145,28 @@ Step ==
                               keep == {k \in DOMAIN all : \A j \in 1..(k + off - 1) : j \notin DOMAIN ro \/ ro[j] = ""}
                           IN SubSeq(all, 1, Cardinality(keep))
             /\ upraw' = TreeOf(r.upper, TRUE)
-            /\ UNCHANGED <<hasUpper, B, fresh, view, preup, digests, exp, lastop, div, nfail, overwh, pview, slots>>
+            /\ UNCHANGED <<hasUpper, B, fresh, view, preup, digests, exp, lastop, div, nfail, overwh, pview, slots, cfgtag>>
        [] r.e = "BuildError" ->
             /\ TRUE = Viol("C10|init|build-error|initial", r)
-            /\ UNCHANGED <<hasUpper, B, fresh, view, lowers, upraw, preup, digests, exp, lastop, div, nfail, overwh, pview, slots>>
+            /\ UNCHANGED <<hasUpper, B, fresh, view, lowers, upraw, preup, digests, exp, lastop, div, nfail, overwh, pview, slots, cfgtag>>
        [] r.e = "View" ->
             /\ TRUE = (IF fresh THEN CheckInitialView(r.rows) ELSE CheckView(r.rows, lastop.st))
             /\ view' = IF ~RowsOK(r.rows) THEN view
                        ELSE IF fresh THEN TreeOf(r.rows, FALSE)
                        ELSE Resync(TreeOf(r.rows, FALSE), IF lastop.st = 0 /\ lastop.op # "rename" THEN exp.v ELSE view)
-            /\ UNCHANGED <<hasUpper, B, fresh, lowers, upraw, preup, digests, exp, lastop, div, nfail, overwh, pview, slots>>
+            /\ UNCHANGED <<hasUpper, B, fresh, lowers, upraw, preup, digests, exp, lastop, div, nfail, overwh, pview, slots, cfgtag>>
        [] r.e = "Restarted" ->
             /\ TRUE = CheckRestarted(r.rows)
             /\ div' = IF RowsOK(r.rows) THEN DiffPaths(ProjView(TreeOf(r.rows, FALSE)), ProjView(view)) ELSE div
-            /\ UNCHANGED <<hasUpper, B, fresh, view, lowers, upraw, preup, digests, exp, lastop, nfail, overwh, pview, slots>>
+            /\ UNCHANGED <<hasUpper, B, fresh, view, lowers, upraw, preup, digests, exp, lastop, nfail, overwh, pview, slots, cfgtag>>
        [] r.e = "Lower" ->
             /\ TRUE = CheckLower(r)
             /\ digests' = IF digests[r.k] = "" THEN [digests EXCEPT ![r.k] = r.digest] ELSE digests
-            /\ UNCHANGED <<hasUpper, B, fresh, view, lowers, upraw, preup, exp, lastop, div, nfail, overwh, pview, slots>>
+            /\ UNCHANGED <<hasUpper, B, fresh, view, lowers, upraw, preup, exp, lastop, div, nfail, overwh, pview, slots, cfgtag>>
        [] r.e = "UpperRaw" ->
             /\ TRUE = (IF fresh \/ lastop.op \in {"init", "rename"} THEN TRUE ELSE CheckCopyUp(TreeOf(r.rows, TRUE)))
             /\ upraw' = TreeOf(r.rows, TRUE) /\ fresh' = FALSE
-            /\ UNCHANGED <<hasUpper, B, view, lowers, preup, digests, exp, lastop, div, nfail, overwh, pview, slots>>
+            /\ UNCHANGED <<hasUpper, B, view, lowers, preup, digests, exp, lastop, div, nfail, overwh, pview, slots, cfgtag>>
        [] r.e = "Op" ->
             /\ preup' = upraw
             /\ exp' = IF r.op \in HandleOps THEN AHandleOp(view, slots, OpOf(r), hasUpper)
@@ -184,11 +185,11 @@ Step ==
                           ELSE IF r.op \in {"rmdir", "unlink", "mkdir"} THEN {q \in overwh : q # r.p /\ ~IsAncestor(r.p, q)}
                           ELSE overwh
             /\ pview' = view
-            /\ UNCHANGED <<hasUpper, B, fresh, view, lowers, upraw, digests, div>>
-       [] OTHER -> /\ TRUE = Viol("C10|event|unknown|-", r) /\ UNCHANGED <<hasUpper, B, fresh, view, lowers, upraw, preup, digests, exp, lastop, div, nfail, overwh, pview, slots>>
+            /\ UNCHANGED <<hasUpper, B, fresh, view, lowers, upraw, digests, div, cfgtag>>
+       [] OTHER -> /\ TRUE = Viol("C10|event|unknown|-", r) /\ UNCHANGED <<hasUpper, B, fresh, view, lowers, upraw, preup, digests, exp, lastop, div, nfail, overwh, pview, slots, cfgtag>>
   /\ l' = l + 1
 Done == l = Len(Rec) + 1 /\ PrintT(<<"ACCEPTED", Len(Rec)>>) /\ l' = l + 1
-        /\ UNCHANGED <<hasUpper, B, fresh, view, lowers, upraw, preup, digests, exp, lastop, div, nfail, overwh, pview, slots>>
+        /\ UNCHANGED <<hasUpper, B, fresh, view, lowers, upraw, preup, digests, exp, lastop, div, nfail, overwh, pview, slots, cfgtag>>
 Next == Step \/ Done
 Spec == Init /\ [][Next]_vars
 =============================================================================
